@@ -88,8 +88,10 @@ MkTSS(big, pi, k, w, off) == StackSecret("tss", big, pi, [c \in 1..Len(pi) |-> M
 MkVSS(big, pi, off) == StackSecret("vss", big, pi, [c \in 1..Len(pi) |-> MkVSec(big, off + c)])
 
 ---------------------------------------------------------------------------
-(* (definitions with the parameter u are evaluated on demand: TLC evaluates      *)
-(* constant definitions without parameters at start-up in every run)         *)
+(* TLC evaluates every constant expression once at start-up - in every run,   *)
+(* whatever Fams is, and slowly.  The case sets below therefore take the flag *)
+(* big of the part they belong to as a parameter (FALSE for the parts with    *)
+(* integer leaves), which makes them expressions of the state.                *)
 (* keys.  A secret key is a Rabin key of the toolbox: m = p q with primes   *)
 (* p, q = 3 (mod 4), gcd(m, phi(m)) = 1 (the proofs of the key need m^-1    *)
 (* mod phi(m)), and y a non-residue with Jacobi symbol 1.                   *)
@@ -106,12 +108,12 @@ Types == {"", "TMCG/RABIN_1024_NIZK"}
 Nizks == {"", "nzk^16^128^128^1F^"}
 Sigs == {"", "sig|ID8^0123abcd|1F|2G|", "|", "||x"}
 PubMY == {<<0, 0>>, <<77, 6>>, <<2147483647, -1>>}
-PubKeys(u) == {PubKey(FALSE, n, e, t, my[1], my[2], z, s) : n \in Names, e \in Emails, t \in Types, my \in PubMY, z \in Nizks, s \in Sigs}
-BigPubKeys(u) == {PubKey(TRUE, "Alice", "a@b.c", "TMCG/RABIN_2048_NIZK", BG(n), BG(n + 7), "nzk^" \o BG(n + 3) \o "^", "sig|" \o BG(n + 5) \o "|")
-                 : n \in 0..(NG - 1)}
-SecKeys(u) == UNION {{SecKey(FALSE, n, "a@b.c", "TMCG/RABIN_8", pq[1] * pq[2], y, pq[1], pq[2], z, s)
+PubKeys(big) == ({PubKey(big, n, e, t, my[1], my[2], z, s) : n \in Names, e \in Emails, t \in Types, my \in PubMY, z \in Nizks, s \in Sigs})
+BigPubKeys(big) == ({PubKey(big, "Alice", "a@b.c", "TMCG/RABIN_2048_NIZK", BG(n), BG(n + 7), "nzk^" \o BG(n + 3) \o "^", "sig|" \o BG(n + 5) \o "|")
+                 : n \in 0..(NG - 1)})
+SecKeys(big) == (UNION {{SecKey(big, n, "a@b.c", "TMCG/RABIN_8", pq[1] * pq[2], y, pq[1], pq[2], z, s)
                      : y \in KeyYsOf(pq[1], pq[2]), n \in {"", "Alice"}, z \in Nizks, s \in {"", "sig|ID8^0123abcd|1F|2G|"}}
-                  : pq \in KeyMods(0)}
+                  : pq \in KeyMods(0)})
 
 ---------------------------------------------------------------------------
 (* groups: p = k q + 1 with primes p, q; elements of order q                 *)
@@ -123,28 +125,28 @@ Elems(p, q, k) == {PowM(x, k, p) : x \in 2..(p - 2)} \ {1}
 ElemSeq(p, q, k) == LET RECURSIVE Asc(_)
                         Asc(S0) == LET S == S0 IN IF S = {} THEN <<>> ELSE LET x == Min(S) IN <<x>> \o Asc(S \ {x})
                     IN Asc(Elems(p, q, k))
-GroupObjs(ty) ==
+GroupObjs(ty, big) ==
   UNION {LET p == G[1]  q == G[2]  k == G[3]  E == ElemSeq(p, q, k)  g == E[1]  h == E[Len(E)]
              el(j) == E[(j % Len(E)) + 1]
-         IN CASE ty = "vtmf"  -> {[ty |-> "vtmf", big |-> FALSE, p |-> p, q |-> q, g |-> x, k |-> k] : x \in {g, h}}
-              [] ty = "com"   -> {[ty |-> "com", big |-> FALSE, p |-> p, q |-> q, k |-> k, h |-> h, g |-> [j \in 1..n |-> el(j)]] : n \in P.ComN}
-              [] ty = "vsshe" -> {[ty |-> "vsshe", big |-> FALSE, p |-> p, q |-> q, g |-> g, h |-> el(2),
-                                   com |-> [ty |-> "com", big |-> FALSE, p |-> p, q |-> q, k |-> k, h |-> h, g |-> [j \in 1..n |-> el(j + 1)]]]
+         IN CASE ty = "vtmf"  -> {[ty |-> "vtmf", big |-> big, p |-> p, q |-> q, g |-> x, k |-> k] : x \in {g, h}}
+              [] ty = "com"   -> {[ty |-> "com", big |-> big, p |-> p, q |-> q, k |-> k, h |-> h, g |-> [j \in 1..n |-> el(j)]] : n \in P.ComN}
+              [] ty = "vsshe" -> {[ty |-> "vsshe", big |-> big, p |-> p, q |-> q, g |-> g, h |-> el(2),
+                                   com |-> [ty |-> "com", big |-> big, p |-> p, q |-> q, k |-> k, h |-> h, g |-> [j \in 1..n |-> el(j + 1)]]]
                                     : n \in P.ComN \cap 1..8}
-              [] ty = "vrhe"  -> {[ty |-> "vrhe", big |-> FALSE, p |-> p, q |-> q, g |-> g, h |-> h]}
-              [] ty = "ptc"   -> {[ty |-> "ptc", big |-> FALSE, p |-> p, q |-> q, k |-> k, g |-> g, h |-> h]}
-              [] ty = "eotp"  -> {[ty |-> "eotp", big |-> FALSE, p |-> p, q |-> q, g |-> x] : x \in {g, h}}
+              [] ty = "vrhe"  -> {[ty |-> "vrhe", big |-> big, p |-> p, q |-> q, g |-> g, h |-> h]}
+              [] ty = "ptc"   -> {[ty |-> "ptc", big |-> big, p |-> p, q |-> q, k |-> k, g |-> g, h |-> h]}
+              [] ty = "eotp"  -> {[ty |-> "eotp", big |-> big, p |-> p, q |-> q, g |-> x] : x \in {g, h}}
         : G \in Groups(0)}
 \* parameter sets of real sizes: opaque numerals (the classes only store them)
-BigGroupObjs(ty) ==
+BigGroupObjs(ty, big) ==
   {LET p == BG(a + 18)  q == BG(a + 9)  g == BG(a)  h == BG(a + 4)  k == BG(a + 13) IN
-   CASE ty = "vtmf"  -> [ty |-> "vtmf", big |-> TRUE, p |-> p, q |-> q, g |-> g, k |-> k]
-     [] ty = "com"   -> [ty |-> "com", big |-> TRUE, p |-> p, q |-> q, k |-> k, h |-> h, g |-> [j \in 1..3 |-> BG(a + j)]]
-     [] ty = "vsshe" -> [ty |-> "vsshe", big |-> TRUE, p |-> p, q |-> q, g |-> g, h |-> h,
-                         com |-> [ty |-> "com", big |-> TRUE, p |-> p, q |-> q, k |-> k, h |-> BG(a + 1), g |-> [j \in 1..2 |-> BG(a + j + 1)]]]
-     [] ty = "vrhe"  -> [ty |-> "vrhe", big |-> TRUE, p |-> p, q |-> q, g |-> g, h |-> h]
-     [] ty = "ptc"   -> [ty |-> "ptc", big |-> TRUE, p |-> p, q |-> q, k |-> k, g |-> g, h |-> h]
-     [] ty = "eotp"  -> [ty |-> "eotp", big |-> TRUE, p |-> p, q |-> q, g |-> g]
+   CASE ty = "vtmf"  -> [ty |-> "vtmf", big |-> big, p |-> p, q |-> q, g |-> g, k |-> k]
+     [] ty = "com"   -> [ty |-> "com", big |-> big, p |-> p, q |-> q, k |-> k, h |-> h, g |-> [j \in 1..3 |-> BG(a + j)]]
+     [] ty = "vsshe" -> [ty |-> "vsshe", big |-> big, p |-> p, q |-> q, g |-> g, h |-> h,
+                         com |-> [ty |-> "com", big |-> big, p |-> p, q |-> q, k |-> k, h |-> BG(a + 1), g |-> [j \in 1..2 |-> BG(a + j + 1)]]]
+     [] ty = "vrhe"  -> [ty |-> "vrhe", big |-> big, p |-> p, q |-> q, g |-> g, h |-> h]
+     [] ty = "ptc"   -> [ty |-> "ptc", big |-> big, p |-> p, q |-> q, k |-> k, g |-> g, h |-> h]
+     [] ty = "eotp"  -> [ty |-> "eotp", big |-> big, p |-> p, q |-> q, g |-> g]
    : a \in {0, 2, 3, 4, 5, 11}}              \* offsets for which p (= BG(a + 18)) is a positive numeral other than "0"
 
 ---------------------------------------------------------------------------
@@ -188,23 +190,23 @@ MkDss(big, n, t, i, qual, iqual, off) ==
   With(MkHead("dss", big, n, t, i, qual, off), "dkg", MkCdkg(big, n, t, i, iqual, qual, off + 21), "ty", "dss")
 
 NTI(nmax) == {nti \in (1..nmax) \X (0..nmax) \X (0..(nmax - 1)) : nti[2] <= nti[1] /\ nti[3] < nti[1]}
-StateObjs(ty) ==
-  CASE ty = "pvss" -> {MkPvss(FALSE, z[1], z[2], z[3], 3 * z[1] + z[2]) : z \in NTI(P.PvssN)}
-                      \cup {MkPvss(FALSE, MaxDkgPlayers, t, i, 7) : t \in {0, 3, MaxDkgPlayers}, i \in {0, MaxDkgPlayers - 1}}
-    [] ty = "gjkr" -> UNION {{MkGjkr(FALSE, z[1], z[2], z[3], ql, 5 * z[1] + z[3]) : ql \in Quals(z[1])} : z \in NTI(P.DkgN)}
+StateObjs(ty, big) ==
+  CASE ty = "pvss" -> ({MkPvss(big, z[1], z[2], z[3], 3 * z[1] + z[2]) : z \in NTI(P.PvssN)}
+                      \cup {MkPvss(big, MaxDkgPlayers, t, i, 7) : t \in {0, 3, MaxDkgPlayers}, i \in {0, MaxDkgPlayers - 1}})
+    [] ty = "gjkr" -> (UNION {{MkGjkr(big, z[1], z[2], z[3], ql, 5 * z[1] + z[3]) : ql \in Quals(z[1])} : z \in NTI(P.DkgN)})
     [] ty \in {"rvss", "zvss"} ->
-         UNION {UNION {{MkXvss(ty, FALSE, z[1], z[2], z[3], tp, ql, 5 * z[1] + z[3] + tp) : ql \in FewQuals(z[1])} : tp \in 0..z[1]}
+         UNION {UNION {{MkXvss(ty, big, z[1], z[2], z[3], tp, ql, 5 * z[1] + z[3] + tp) : ql \in FewQuals(z[1])} : tp \in 0..z[1]}
                 : z \in NTI(P.XvssN)}
-    [] ty = "cdkg" -> UNION {{MkCdkg(FALSE, z[1], z[2], z[3], ql[1], ql[2], 2 * z[1] + z[3]) : ql \in FewQuals(z[1]) \X FewQuals(z[1])}
-                             : z \in NTI(P.NestN)}
-    [] ty = "dss"  -> UNION {{MkDss(FALSE, z[1], z[2], z[3], ql[1], ql[2], 2 * z[1] + z[3]) : ql \in FewQuals(z[1]) \X FewQuals(z[1])}
-                             : z \in NTI(P.NestN)}
-BigStateObjs(ty) ==
-  CASE ty = "pvss" -> {MkPvss(TRUE, 3, 1, 2, a) : a \in {0, 2, 3, 4, 5, 11}}
-    [] ty = "gjkr" -> {MkGjkr(TRUE, 3, 1, 2, <<0, 2>>, a) : a \in {0, 5}}
-    [] ty \in {"rvss", "zvss"} -> {MkXvss(ty, TRUE, 3, 1, 2, 2, <<0, 2>>, a) : a \in {0, 5}}
-    [] ty = "cdkg" -> {MkCdkg(TRUE, 3, 1, 2, <<0, 1, 2>>, <<1>>, a) : a \in {0, 5}}
-    [] ty = "dss"  -> {MkDss(TRUE, 3, 1, 2, <<0, 1, 2>>, <<1>>, a) : a \in {0, 5}}
+    [] ty = "cdkg" -> (UNION {{MkCdkg(big, z[1], z[2], z[3], ql[1], ql[2], 2 * z[1] + z[3]) : ql \in FewQuals(z[1]) \X FewQuals(z[1])}
+                             : z \in NTI(P.NestN)})
+    [] ty = "dss"  -> (UNION {{MkDss(big, z[1], z[2], z[3], ql[1], ql[2], 2 * z[1] + z[3]) : ql \in FewQuals(z[1]) \X FewQuals(z[1])}
+                             : z \in NTI(P.NestN)})
+BigStateObjs(ty, big) ==
+  CASE ty = "pvss" -> ({MkPvss(big, 3, 1, 2, a) : a \in {0, 2, 3, 4, 5, 11}})
+    [] ty = "gjkr" -> ({MkGjkr(big, 3, 1, 2, <<0, 2>>, a) : a \in {0, 5}})
+    [] ty \in {"rvss", "zvss"} -> {MkXvss(ty, big, 3, 1, 2, 2, <<0, 2>>, a) : a \in {0, 5}}
+    [] ty = "cdkg" -> ({MkCdkg(big, 3, 1, 2, <<0, 1, 2>>, <<1>>, a) : a \in {0, 5}})
+    [] ty = "dss"  -> ({MkDss(big, 3, 1, 2, <<0, 1, 2>>, <<1>>, a) : a \in {0, 5}})
 
 ---------------------------------------------------------------------------
 (* malformed texts: dimensions outside their limits, counts that do not fit, *)
@@ -214,50 +216,49 @@ BigStateObjs(ty) ==
 Lim(ty, big, arg, txt) == [k |-> "lim", ty |-> ty, big |-> big, arg |-> arg, txt |-> txt]
 CutLast(s0) == LET s == s0 IN SubSeq(s, 1, Len(s) - 1)
 CutLastLine(s0) == LET s == s0  Q == Delims(s, NL) IN SubSeq(s, 1, Q[Len(Q) - 1])        \* at least two lines
-ZeroStack == Stack("tstack", FALSE, <<>>)
-LimCases(u) ==
-  \* cards and card secrets: k, w in {0, limit + 1}; last delimiter missing; wrong magic
-  {Lim("tcard", FALSE, 0, ExpTCard(MkTCard(FALSE, kw[1], kw[2], 0))) : kw \in {<<MaxPlayers + 1, 1>>, <<1, MaxTypeBits + 1>>, <<MaxPlayers + 1, MaxTypeBits + 1>>}}
-  \cup {Lim("tsec", FALSE, 0, ExpTSec(MkTSec(FALSE, kw[1], kw[2], 0))) : kw \in {<<MaxPlayers + 1, 1>>, <<1, MaxTypeBits + 1>>}}
-  \cup {Lim("tcard", FALSE, 0, t) : t \in {"crd|0|1|", "crd|1|0|", "crd|0|0|", "crd|1|1|", "crd|2|2|1|2|3|", CutLast(ExpTCard(MkTCard(FALSE, 2, 2, 0))),
+ZeroStack(big) == Stack("tstack", big, <<>>)
+LimCases(big) == (  \* cards and card secrets: k, w in {0, limit + 1}; last delimiter missing; wrong magic
+  {Lim("tcard", big, 0, ExpTCard(MkTCard(big, kw[1], kw[2], 0))) : kw \in {<<MaxPlayers + 1, 1>>, <<1, MaxTypeBits + 1>>, <<MaxPlayers + 1, MaxTypeBits + 1>>}}
+  \cup {Lim("tsec", big, 0, ExpTSec(MkTSec(big, kw[1], kw[2], 0))) : kw \in {<<MaxPlayers + 1, 1>>, <<1, MaxTypeBits + 1>>}}
+  \cup {Lim("tcard", big, 0, t) : t \in {"crd|0|1|", "crd|1|0|", "crd|0|0|", "crd|1|1|", "crd|2|2|1|2|3|", CutLast(ExpTCard(MkTCard(big, 2, 2, 0))),
                                           "crs|1|1|5|", "crd|1|1||", "crd||1|5|", ""}}
-  \cup {Lim("tsec", FALSE, 0, t) : t \in {"crs|0|1|", "crs|1|0|", "crs|1|1|5|", CutLast(ExpTSec(MkTSec(FALSE, 2, 2, 0))), "crd|1|1|5|0|", "crs|1|1|5||"}}
-  \cup {Lim("vcard", FALSE, 0, t) : t \in {"crd|5|", "crd|5|6", "crs|5|6|", "crd||6|", "crd|5||"}}
-  \cup {Lim("vsec", FALSE, 0, t) : t \in {"crs|5", "crd|5|", "crs||"}}
+  \cup {Lim("tsec", big, 0, t) : t \in {"crs|0|1|", "crs|1|0|", "crs|1|1|5|", CutLast(ExpTSec(MkTSec(big, 2, 2, 0))), "crd|1|1|5|0|", "crs|1|1|5||"}}
+  \cup {Lim("vcard", big, 0, t) : t \in {"crd|5|", "crd|5|6", "crs|5|6|", "crd||6|", "crd|5||"}}
+  \cup {Lim("vsec", big, 0, t) : t \in {"crs|5", "crd|5|", "crs||"}}
   \* stacks: size 0 and limit + 1, count larger than the number of elements, end missing, a bad element
-  \cup {Lim("vstack", FALSE, 0, ExpStack(MkVStack(FALSE, MaxCards + 1, 0))),
-        Lim("tstack", FALSE, 0, ExpStack(MkTStack(FALSE, MaxCards + 1, 1, 1, 0))),
-        Lim("tstack", FALSE, 0, ExpStack(ZeroStack)), Lim("vstack", FALSE, 0, "stk^0^"),
-        Lim("vstack", FALSE, 0, "stk^3^crd|1|2|^crd|3|4|^"), Lim("vstack", FALSE, 0, CutLast(ExpStack(MkVStack(FALSE, 3, 0)))),
-        Lim("tstack", FALSE, 0, "stk^2^crd|1|1|5|^crd|1|0|^"), Lim("tstack", FALSE, 0, "stk^2^crd|1|1|5|^crd|33|1|5|^"),
-        Lim("vstack", FALSE, 0, "sts^1^crd|1|2|^"), Lim("vstack", FALSE, 0, "stk^1^crs|1|^")}
+  \cup {Lim("vstack", big, 0, ExpStack(MkVStack(big, MaxCards + 1, 0))),
+        Lim("tstack", big, 0, ExpStack(MkTStack(big, MaxCards + 1, 1, 1, 0))),
+        Lim("tstack", big, 0, ExpStack(ZeroStack(big))), Lim("vstack", big, 0, "stk^0^"),
+        Lim("vstack", big, 0, "stk^3^crd|1|2|^crd|3|4|^"), Lim("vstack", big, 0, CutLast(ExpStack(MkVStack(big, 3, 0)))),
+        Lim("tstack", big, 0, "stk^2^crd|1|1|5|^crd|1|0|^"), Lim("tstack", big, 0, "stk^2^crd|1|1|5|^crd|33|1|5|^"),
+        Lim("vstack", big, 0, "sts^1^crd|1|2|^"), Lim("vstack", big, 0, "stk^1^crs|1|^")}
   \* stack secrets: size 0 and limit + 1, index = size, index repeated, end missing
-  \cup {Lim("vss", FALSE, 0, ExpStackSecret(MkVSS(FALSE, [i \in 1..(MaxCards + 1) |-> i - 1], 0))),
-        Lim("tss", FALSE, 0, ExpStackSecret(MkTSS(FALSE, [i \in 1..(MaxCards + 1) |-> i - 1], 1, 1, 0))),
-        Lim("vss", FALSE, 0, "sts^0^"), Lim("tss", FALSE, 0, "sts^0^"),
-        Lim("vss", FALSE, 0, CutLast(ExpStackSecret(MkVSS(FALSE, <<1, 0>>, 0)))), Lim("vss", FALSE, 0, "sts^2^0^crs|1|^")}
-  \cup {Lim("vss", FALSE, 0, ExpStackSecret(MkVSS(FALSE, pi, 0))) : pi \in {<<1>>, <<0, 2>>, <<2, 1>>, <<0, 0>>, <<1, 1>>, <<0, 1, 1>>, <<3, 1, 2>>, <<2, 2, 2>>}}
-  \cup {Lim("tss", FALSE, 0, ExpStackSecret(MkTSS(FALSE, pi, 1, 2, 0))) : pi \in {<<1>>, <<0, 0>>, <<1, 2>>, <<0, 1, 3>>}}
+  \cup {Lim("vss", big, 0, ExpStackSecret(MkVSS(big, [i \in 1..(MaxCards + 1) |-> i - 1], 0))),
+        Lim("tss", big, 0, ExpStackSecret(MkTSS(big, [i \in 1..(MaxCards + 1) |-> i - 1], 1, 1, 0))),
+        Lim("vss", big, 0, "sts^0^"), Lim("tss", big, 0, "sts^0^"),
+        Lim("vss", big, 0, CutLast(ExpStackSecret(MkVSS(big, <<1, 0>>, 0)))), Lim("vss", big, 0, "sts^2^0^crs|1|^")}
+  \cup {Lim("vss", big, 0, ExpStackSecret(MkVSS(big, pi, 0))) : pi \in {<<1>>, <<0, 2>>, <<2, 1>>, <<0, 0>>, <<1, 1>>, <<0, 1, 1>>, <<3, 1, 2>>, <<2, 2, 2>>}}
+  \cup {Lim("tss", big, 0, ExpStackSecret(MkTSS(big, pi, 1, 2, 0))) : pi \in {<<1>>, <<0, 0>>, <<1, 2>>, <<0, 1, 3>>}}
   \* keys: a field missing
-  \cup {Lim("pub", FALSE, 0, t) : t \in {"pub|a|b|c|1F|6|nzk", "pub|a|b|c|1F|6", "sec|a|b|c|1F|6|n|s", "pub|a|b|c||6|n|s", "pub|a|b|c|1F||n|s"}}
-  \cup {Lim("sec", FALSE, 0, t) : t \in {"sec|a|b|c|1F|6|7|B|nzk", "pub|a|b|c|1F|6|7|B|n|s", "sec|a|b|c|1F|6|7||n|s", "sec|a|b|c|1F|6|7|B"}}
+  \cup {Lim("pub", big, 0, t) : t \in {"pub|a|b|c|1F|6|nzk", "pub|a|b|c|1F|6", "sec|a|b|c|1F|6|n|s", "pub|a|b|c||6|n|s", "pub|a|b|c|1F||n|s"}}
+  \cup {Lim("sec", big, 0, t) : t \in {"sec|a|b|c|1F|6|7|B|nzk", "pub|a|b|c|1F|6|7|B|n|s", "sec|a|b|c|1F|6|7||n|s", "sec|a|b|c|1F|6|7|B"}}
   \* line formats: the last line missing; party count above the limit; t > n; i >= n; t' > n; QUAL too long / member >= n
-  \cup {Lim(o.ty, FALSE, ArgOf(o), CutLastLine(ExpLines(o))) :
-          o \in {MkPvss(FALSE, 3, 1, 2, 0), MkGjkr(FALSE, 2, 1, 0, <<0, 1>>, 0), MkXvss("rvss", FALSE, 2, 1, 0, 2, <<1>>, 0),
-                 MkXvss("zvss", FALSE, 2, 1, 0, 0, <<>>, 0), MkCdkg(FALSE, 2, 1, 0, <<0>>, <<1>>, 0), MkDss(FALSE, 2, 1, 1, <<0>>, <<1>>, 0),
-                 [ty |-> "vtmf", big |-> FALSE, p |-> 23, q |-> 11, g |-> 2, k |-> 2],
-                 [ty |-> "com", big |-> FALSE, p |-> 23, q |-> 11, k |-> 2, h |-> 3, g |-> <<2, 4>>],
-                 [ty |-> "eotp", big |-> FALSE, p |-> 23, q |-> 11, g |-> 2]}}
-  \cup {Lim("pvss", FALSE, 0, ExpLines(MkPvss(FALSE, nti[1], nti[2], nti[3], 0))) :
+  \cup {Lim(o.ty, big, ArgOf(o), CutLastLine(ExpLines(o))) :
+          o \in {MkPvss(big, 3, 1, 2, 0), MkGjkr(big, 2, 1, 0, <<0, 1>>, 0), MkXvss("rvss", big, 2, 1, 0, 2, <<1>>, 0),
+                 MkXvss("zvss", big, 2, 1, 0, 0, <<>>, 0), MkCdkg(big, 2, 1, 0, <<0>>, <<1>>, 0), MkDss(big, 2, 1, 1, <<0>>, <<1>>, 0),
+                 [ty |-> "vtmf", big |-> big, p |-> 23, q |-> 11, g |-> 2, k |-> 2],
+                 [ty |-> "com", big |-> big, p |-> 23, q |-> 11, k |-> 2, h |-> 3, g |-> <<2, 4>>],
+                 [ty |-> "eotp", big |-> big, p |-> 23, q |-> 11, g |-> 2]}}
+  \cup {Lim("pvss", big, 0, ExpLines(MkPvss(big, nti[1], nti[2], nti[3], 0))) :
           nti \in {<<MaxDkgPlayers + 1, 1, 0>>, <<3, 4, 0>>, <<3, 1, 3>>, <<3, 1, 4>>, <<0, 0, 0>>}}
-  \cup {Lim("gjkr", FALSE, 0, ExpLines(MkGjkr(FALSE, z[1], z[2], z[3], z[4], 0))) :
+  \cup {Lim("gjkr", big, 0, ExpLines(MkGjkr(big, z[1], z[2], z[3], z[4], 0))) :
           z \in {<<2, 3, 0, <<0>>>>, <<2, 1, 2, <<0>>>>, <<2, 1, 0, <<0, 1, 0>>>>, <<2, 1, 0, <<2>>>>, <<2, 1, 0, <<0, 2>>>>}}
-  \cup {Lim(ty, FALSE, 0, ExpLines(MkXvss(ty, FALSE, z[1], z[2], z[3], z[4], z[5], 0))) : ty \in {"rvss", "zvss"},
+  \cup {Lim(ty, big, 0, ExpLines(MkXvss(ty, big, z[1], z[2], z[3], z[4], z[5], 0))) : ty \in {"rvss", "zvss"},
           z \in {<<2, 3, 0, 1, <<0>>>>, <<2, 1, 2, 1, <<0>>>>, <<2, 1, 0, 3, <<0>>>>, <<2, 1, 0, 1, <<0, 1, 1>>>>, <<2, 1, 0, 1, <<2>>>>}}
-  \cup {Lim("cdkg", FALSE, 0, ExpLines(MkCdkg(FALSE, z[1], z[2], z[3], z[4], z[5], 0))) :
+  \cup {Lim("cdkg", big, 0, ExpLines(MkCdkg(big, z[1], z[2], z[3], z[4], z[5], 0))) :
           z \in {<<2, 3, 0, <<0>>, <<0>>>>, <<2, 1, 2, <<0>>, <<0>>>>, <<2, 1, 0, <<2>>, <<0>>>>, <<2, 1, 0, <<0>>, <<2>>>>, <<2, 1, 0, <<0, 1, 1>>, <<0>>>>}}
-  \cup {Lim("dss", FALSE, 0, ExpLines(MkDss(FALSE, z[1], z[2], z[3], z[4], z[5], 0))) :
-          z \in {<<2, 3, 0, <<0>>, <<0>>>>, <<2, 1, 2, <<0>>, <<0>>>>, <<2, 1, 0, <<2>>, <<0>>>>, <<2, 1, 0, <<0>>, <<2>>>>}}
+  \cup {Lim("dss", big, 0, ExpLines(MkDss(big, z[1], z[2], z[3], z[4], z[5], 0))) :
+          z \in {<<2, 3, 0, <<0>>, <<0>>>>, <<2, 1, 2, <<0>>, <<0>>>>, <<2, 1, 0, <<2>>, <<0>>>>, <<2, 1, 0, <<0>>, <<2>>>>}})
 
 ---------------------------------------------------------------------------
 (* the tree                                                                  *)
@@ -279,13 +280,13 @@ Dims == (1..MaxPlayers) \X (1..MaxTypeBits)
 BigDims == {<<1, 1>>, <<2, 3>>, <<MaxPlayers, MaxTypeBits>>}
 CasesOf(s) ==
   LET ty == s.ty  big == s.big IN
-  CASE s.f = "int" /\ ty = "int" /\ ~big -> {Case([ty |-> "int", big |-> FALSE, v |-> v], NoUsed) : v \in (P.IntLo..P.IntHi) \cup BSet}
-    [] s.f = "int" /\ ty = "int" /\ big  -> {Case([ty |-> "int", big |-> TRUE, v |-> BigN[n]], NoUsed) : n \in 1..NG}
+  CASE s.f = "int" /\ ty = "int" /\ ~big -> ({Case([ty |-> "int", big |-> big, v |-> v], NoUsed) : v \in (P.IntLo..P.IntHi) \cup BSet})
+    [] s.f = "int" /\ ty = "int" /\ big  -> ({Case([ty |-> "int", big |-> big, v |-> BigN[n]], NoUsed) : n \in 1..NG})
     [] s.f = "int" /\ ty = "ints"        -> {Case([ty |-> "ints", big |-> big, v |-> [j \in 1..n |-> Fill(big, j - 1)]], NoUsed) : n \in {2, 3, IF big THEN NG ELSE NB}}
     [] s.f = "card" /\ ty = "tcard" -> {Case(MkTCard(big, kw[1], kw[2], off), UsedDims(kw[1], kw[2])) : kw \in (IF big THEN BigDims ELSE Dims), off \in P.Offs}
     [] s.f = "card" /\ ty = "tsec"  -> {Case(MkTSec(big, kw[1], kw[2], off), UsedDims(kw[1], kw[2])) : kw \in (IF big THEN BigDims ELSE Dims), off \in P.Offs}
-    [] s.f = "card" /\ ty = "vcard" -> IF big THEN {Case(MkVCard(TRUE, n), NoUsed) : n \in 0..(NG - 1)}
-                                       ELSE {Case(VCard(FALSE, c[1], c[2]), NoUsed) : c \in BSet \X BSet}
+    [] s.f = "card" /\ ty = "vcard" -> IF big THEN ({Case(MkVCard(big, n), NoUsed) : n \in 0..(NG - 1)})
+                                       ELSE ({Case(VCard(big, c[1], c[2]), NoUsed) : c \in BSet \X BSet})
     [] s.f = "card" /\ ty = "vsec"  -> {Case(MkVSec(big, n), NoUsed) : n \in 0..((IF big THEN NG ELSE NB) - 1)}
     [] s.f = "stack" /\ ty = "tstack" -> {Case(MkTStack(big, n, kw[1], kw[2], n), NoUsed) : n \in (IF big THEN {1, 3, 17} ELSE P.StackSizes), kw \in P.StackDims}
                                          \cup {Case(MkTStack(big, n, MaxPlayers, MaxTypeBits, n), NoUsed) : n \in (IF big THEN {2} ELSE P.WideStack)}
@@ -295,11 +296,11 @@ CasesOf(s) ==
                                       \cup UNION {{Case(MkTSS(big, pi, MaxPlayers, MaxTypeBits, n), NoUsed) : pi \in {[i \in 1..n |-> n - i]}}
                                              : n \in (IF big THEN {2} ELSE P.WideStack)}
     [] s.f = "stack" /\ ty = "vss" -> UNION {{Case(MkVSS(big, pi, n), NoUsed) : pi \in SomePerms(n)} : n \in (IF big THEN {1, 3, NG} ELSE P.StackSizes)}
-    [] s.f = "key" /\ ty = "pub" -> {Case(o, NoUsed) : o \in (IF big THEN BigPubKeys(0) ELSE PubKeys(0))}
-    [] s.f = "key" /\ ty = "sec" -> {Case(o, NoUsed) : o \in SecKeys(0)}
-    [] s.f = "group" -> {Case(o, NoUsed) : o \in (IF big THEN BigGroupObjs(ty) ELSE GroupObjs(ty))}
-    [] s.f = "state" -> {Case(o, NoUsed) : o \in (IF big THEN BigStateObjs(ty) ELSE StateObjs(ty))}
-    [] s.f = "lim" -> LimCases(0)
+    [] s.f = "key" /\ ty = "pub" -> {Case(o, NoUsed) : o \in (IF big THEN BigPubKeys(big) ELSE PubKeys(big))}
+    [] s.f = "key" /\ ty = "sec" -> {Case(o, NoUsed) : o \in SecKeys(big)}
+    [] s.f = "group" -> {Case(o, NoUsed) : o \in (IF big THEN BigGroupObjs(ty, big) ELSE GroupObjs(ty, big))}
+    [] s.f = "state" -> {Case(o, NoUsed) : o \in (IF big THEN BigStateObjs(ty, big) ELSE StateObjs(ty, big))}
+    [] s.f = "lim" -> LimCases(big)
 
 Init == st = Root
 Next == \/ st = Root /\ st' \in Level1
